@@ -87,7 +87,9 @@ GetTerm ==
          sp  == SpUpd(inp, it, p, line, col)
      IN /\ line' = sp[1] /\ col' = sp[2] /\ it' = p
         /\ IF p = Len(inp)
-           THEN /\ cur' = EofOf(g) /\ endIt' = p /\ ph' = "act"
+           THEN /\ cur' = EofOf(g) /\ endIt' = endIt /\ ph' = "act"      \* current_end_it is NOT moved at end of input:
+                                                                       \* after trailing whitespace it # endIt, and <eof> is
+                                                                       \* then not recognised again on the next iteration
                 /\ ev' = <<"rec", sp[1], sp[2], TName(g, EofOf(g))>>
                 /\ UNCHANGED <<status, msgs>>
            ELSE LET lx == LexAt(g, inp, p) IN
@@ -233,7 +235,7 @@ DNext == GetTerm \/ ConsumeFailEof \/ ConsumeDiscard \/ SynErr \/ EnterRecovery 
 (************************* invariants of every driver state ***************)
 StacksInSync == /\ Len(stack) = Len(sstack)
                 /\ ((status = "run" /\ ph \in {"top", "act", "enter", "entercons"}) => Len(vals) = Len(stack) - 1)
-PositionsInRange == 0 <= it /\ it <= endIt /\ endIt <= Len(inp)
+PositionsInRange == 0 <= it /\ it <= Len(inp) /\ 0 <= endIt /\ endIt <= Len(inp)
 MsgDiscipline == /\ Len(msgs) <= 1 \/ \E i \in 1..Len(msgs) : msgs[i][1] = "synerr"
                  /\ (status = "acc" /\ ~opt.v => TRUE)
 \* the driven table and the specification's table prescribe the same action whenever a cell is consulted
